@@ -271,7 +271,11 @@ func runLimits(c *hx.Ctx) {
 		}
 	}
 	for _, ty := range []int{0, 1, 4, 5, 0x20} {
-		for _, l := range []int{0, 16384, 16385, L - 9, L - 8, L - 1, L, L + 1} {
+		ls := []int{0, 16384, 16385, L - 9, L - 8, L, L + 1}
+		if ty == 1 || ty == 5 {
+			ls = []int{0, 16384, 16385, L, L + 1}
+		}
+		for _, l := range ls {
 			s.rf("client", "own", ty, 0, c18r6Sid(ty, false), l, 0, 1, -1)
 		}
 	}
@@ -321,9 +325,9 @@ func runLimits(c *hx.Ctx) {
 					}
 				}
 			}
-			for _, l := range []int{254, 255, 256, 257, 261, 262, L - 1, L, L + 1} {
+			for _, l := range []int{254, 255, 256, 257, 261, 262, L, L + 1} {
 				for _, p := range []int{0, 254, 255} {
-					if l >= L-1 && p == 254 {
+					if l >= L && p != 255 && !c.Thorough() {
 						continue
 					}
 					s.rf("server", "own", ty, fl, 1, l, p, 1, -1)
